@@ -49,7 +49,7 @@ def method_spec(draw, idx):
         if has_def:
             p['default'] = draw(st.one_of(st.sampled_from(values.LOOKALIKES), ARG_VALUES))
         params.append(p)
-    form = draw(st.sampled_from(['bare', 'call', 'call', 'object']))
+    form = draw(st.sampled_from(['bare', 'call', 'call', 'object', 'shared']))
     ignore = []
     version = None
     if form != 'bare':
@@ -57,6 +57,9 @@ def method_spec(draw, idx):
             ignore = draw(st.lists(st.sampled_from(names), max_size=2, unique=True))
         if form == 'call' and draw(st.booleans()):
             version = draw(st.sampled_from(['1', '2', 'v.1', 'x']))
+        if form == 'shared':
+            # ONE configured decorator object (`versioned = cached(version='sv')`) applied to several methods
+            ignore, version = [], 'sv'
     # bindings pool
     base = {}
     for p in params:
@@ -111,16 +114,17 @@ def cases(draw):
             'omit': draw(st.lists(st.booleans(), min_size=len(m['params']), max_size=len(m['params']))),
             'kworder': draw(st.permutations(list(range(len(m['params']))))),
             'revkeys': draw(st.booleans()),
-            'ctl': draw(st.sampled_from(['none', 'none', 'none', 'force', 'only', 'store'])),
+            'ctl': draw(st.sampled_from(['none', 'none', 'none', 'force', 'only', 'store', 'force+store'])),
         }
-        if op['ctl'] == 'store':
+        if op['ctl'] in ('store', 'force+store'):
             op['store'] = draw(ARG_VALUES)
         ops.append(op)
     return {'methods': methods, 'backend': backend, 'ops': ops}
 
 
 def _src(methods):
-    lines = ['class Obj:', '    def __init__(self, cache, log):', '        self.cache = cache', '        self._log = log']
+    lines = ['_shared = cached(version="sv")', '', '',
+             'class Obj:', '    def __init__(self, cache, log):', '        self.cache = cache', '        self._log = log']
     for m in methods:
         sig, seen_kw = ['self'], False
         for p in m['params']:
@@ -135,7 +139,7 @@ def _src(methods):
             deco_args.append(f'ignore_kwargs={m["ignore"]!r}')
         if m['version'] is not None:
             deco_args.append(f'version={m["version"]!r}')
-        deco = '@cached' if m['form'] == 'bare' else f'@cached({", ".join(deco_args)})'
+        deco = '@cached' if m['form'] == 'bare' else ('@_shared' if m['form'] == 'shared' else f'@cached({", ".join(deco_args)})')
         names = ', '.join(f'{p["name"]}={p["name"]}' for p in m['params'])
         ret = 'None' if m.get('returns_none') else 'r'
         lines += [f'    {deco}', f'    def {m["name"]}({", ".join(sig)}):',
@@ -195,6 +199,9 @@ def eval_case(case, rec):
                 ctl['only_cache'] = True
             elif op['ctl'] == 'store':
                 ctl['store_cache_value'] = copy.deepcopy(op['store'])
+            elif op['ctl'] == 'force+store':
+                ctl['force_cache'] = True
+                ctl['store_cache_value'] = copy.deepcopy(op['store'])
             mkey = (m['name'], canon({k: v for k, v in binding.items() if k not in m['ignore']}))
             spell = (len(args), tuple(kwargs), op['revkeys'])
             before = len(log)
@@ -213,6 +220,13 @@ def eval_case(case, rec):
                         raise Violation('only_cache-wrong-value', dict(info, got=repr(got), want=repr(model[mkey])))
                 elif got is not tc.NO_VALUE:
                     raise Violation('only_cache-phantom-entry', dict(info, got=repr(got)))
+            elif op['ctl'] == 'force+store':
+                # forced: the supplied value replaces whatever is stored, still without calling the method
+                if ran:
+                    raise Violation('store_cache_value-executed', info)
+                if not strict_eq(got, op['store']):
+                    raise Violation('forced-store_cache_value-not-returned', dict(info, got=repr(got), want=repr(op['store'])))
+                model[mkey] = op['store']
             elif op['ctl'] == 'store':
                 if ran:
                     raise Violation('store_cache_value-executed', info)
